@@ -139,7 +139,8 @@ theorem newDT_fresh : ∀ (dt : DataType) (path : String) (nullable : Bool) (md 
       obtain ⟨hw, hd, ht⟩ := newB_fresh child _ el h1
       exact ⟨by simp only [WFB, hd]; exact ⟨VLen_new nullable, by simp, hw⟩, by simp [dec, maskNull_new],
         by simp [takeRest, map_new, ht]⟩
-  | .map (.mk ename (.struct (.cons kf (.cons vf rest))) en emd) sorted, path, nullable, md, b, h => by
+  | .map (.mk _ (.struct (.cons _ (.cons _ (.cons _ _)))) _ _) _, path, nullable, md, b, h => by simp [newDT, fail] at h
+  | .map (.mk ename (.struct (.cons kf (.cons vf .nil))) en emd) sorted, path, nullable, md, b, h => by
     simp only [newDT] at h
     obtain ⟨kb, h1, h⟩ := (bind_ok _ _ _).1 h
     obtain ⟨vb, h2, h⟩ := (bind_ok _ _ _).1 h
@@ -192,6 +193,8 @@ theorem newDT_fresh : ∀ (dt : DataType) (path : String) (nullable : Bool) (md 
     exact mkStruct_fresh hw ht h
   | .dictionary k v, path, nullable, md, b, h => by
     simp only [newDT] at h
+    split at h
+    case isFalse => simp [ctx_ok, fail] at h
     obtain ⟨kb, h1, h⟩ := (bind_ok _ _ _).1 h
     obtain ⟨vb, h2, h⟩ := (bind_ok _ _ _).1 h
     cases h
